@@ -1,6 +1,7 @@
 package props
 
 import (
+	"fmt"
 	"strings"
 	"testing"
 
@@ -283,3 +284,55 @@ func TestC16(t *testing.T) {
 	})
 }
 func TestReplayC16(t *testing.T) { runReplay(t, "C16", checkC16) }
+
+// TestC16Exhaustive: every index set of at most 3 elements within three 64-bit
+// words (and every 2-element set within five words), every index of the span as
+// probe, for a narrow and a wide element type.
+func TestC16Exhaustive(t *testing.T) {
+	st := newStats("C16")
+	defer st.write()
+	shard, nshards := envInt("VERIF_SHARD", 0), envInt("VERIF_NSHARDS", 1)
+	span3, span2 := int32(192), int32(320)
+	if !thorough() {
+		span3 = 130
+	}
+	var n int64
+	run := func(kind string, idx []int32) {
+		n++
+		if int(n%int64(nshards)) != shard {
+			return
+		}
+		c := &Case{Prop: "C16", Gen: "exhaustive", Kind: kind, Idx: append([]int32{}, idx...)}
+		for i := range idx {
+			c.Ints = append(c.Ints, int64(uint64(0x8000000000000001)*uint64(i+1)+uint64(idx[i])))
+		}
+		sub := newStats("C16")
+		if err := checkC16(c, sub); err != nil {
+			reportEnumFailure(t, "C16", st, c, err, "index sets")
+		}
+		h := uint64(n)*1000003 + uint64(len(kind))
+		st.doneHash(h, len(idx) >= 2 && idx[len(idx)-1]>>6 > idx[0]>>6+1)
+		st.calls(int(sub.Calls))
+		if n%200000 == 1 {
+			st.addSample(c)
+		}
+	}
+	kinds := []string{"U16", "I64"}
+	for _, kind := range kinds {
+		run(kind, nil)
+		for a := int32(0); a < span2; a++ {
+			run(kind, []int32{a})
+			for b := a + 1; b < span2; b++ {
+				run(kind, []int32{a, b})
+			}
+		}
+		for a := int32(0); a < span3; a++ {
+			for b := a + 1; b < span3; b++ {
+				for c := b + 1; c < span3; c++ {
+					run(kind, []int32{a, b, c})
+				}
+			}
+		}
+	}
+	st.Exhaustive[fmt.Sprintf("index sets: <=2 of [0,%d) and <=3 of [0,%d), x 2 element kinds", span2, span3)] = int64(st.Evaluations)
+}
